@@ -378,6 +378,26 @@ func checkC13(c *Ctx) {
 		if n == 0 {
 			r.Unk("C13.8", "SIGHUP handler of the registration server", token.NoPos, "", "no call of ReloadSubnets found in the registration server's main package")
 		}
+		// ... and calls nothing that panics when it is called a second time (registration-style APIs: expvar.New*,
+		// prometheus MustRegister, flag definitions, http.Handle) - the second reload would take the registrar down
+		if f := c.fn("C13.8", "pkg/regserver/regprocessor", "RegProcessor", "ReloadSubnets"); f != nil {
+			var once []string
+			pos := f.Pos()
+			eachInstrDeep(f, 2, func(in ssa.Instruction, d deepCtx) {
+				ci, ok := in.(ssa.CallInstruction)
+				if !ok {
+					return
+				}
+				n := calleeName(ci.Common())
+				switch {
+				case strings.HasPrefix(n, "expvar.New"), strings.HasPrefix(n, "expvar.Publish"), strings.Contains(n, "MustRegister"), strings.HasPrefix(n, "net/http.Handle"), strings.HasPrefix(n, "flag."):
+					once = append(once, shortName(n))
+					pos = in.Pos()
+				}
+			})
+			r.Check(len(once) == 0, "C13.8", "ReloadSubnets: nothing that may only be called once", pos, fnName(f), "no expvar / registry / flag / handler registration on the reload path",
+				"ReloadSubnets calls "+strings.Join(once, ", ")+", which panics when the same name is registered again: the first reload works, the second one panics on the signal goroutine and takes the registrar down")
+		}
 		if f := c.fn("C13.8", "pkg/regserver/regprocessor", "RegProcessor", "ReloadSubnets"); f != nil {
 			var ops []string
 			pos := f.Pos()
